@@ -109,13 +109,17 @@ def slice_offset(slice, shape):
         else:
             raise ValueError(f"Can't compute offset from slice {slice}")
     else:
-        slice_shape = np.array((slice[0].stop-slice[0].start, slice[1].stop-slice[1].start))
+        # (as python integers: an offset is a signed number of samples, and the
+        # arithmetic below would wrap around in an unsigned type of the caller's)
+        start = (int(slice[0].start), int(slice[1].start))
+        stop = (int(slice[0].stop), int(slice[1].stop))
+        slice_shape = np.array((stop[0]-start[0], stop[1]-start[1]))
         slice_center = slice_shape//2
 
-        shape = np.asarray(shape)
+        shape = np.asarray([int(n) for n in shape])
         center = shape//2
 
-        slice_offset = np.array((slice[0].start+slice_center[0], slice[1].start+slice_center[1])) - center
+        slice_offset = np.array((start[0]+slice_center[0], start[1]+slice_center[1])) - center
 
         if np.all(slice_offset == 0):
             offset = (0, 0)
